@@ -5,7 +5,9 @@
 (* line that starts with white space, a newline or the end of the file - so a     *)
 (* block directly followed by a comment or a directive swallows that line as one  *)
 (* more row and the file is rejected.  Annotations (@performance / @accrue lines) *)
-(* may precede any directive.  Damaged items are rejected wherever they stand.    *)
+(* belong to the transaction that follows them directly; in front of any other    *)
+(* directive they are rejected (before repair D18 they were accepted and silently *)
+(* dropped).  Damaged items are rejected wherever they stand.                     *)
 EXTENDS Integers, Sequences, FiniteSets, TLC, Json
 CONSTANTS MaxItems, Emit
 VARIABLES items
@@ -15,15 +17,16 @@ Annot == {"perf", "accrue"}                 \* annotation line(s) in front of th
 Damaged == {"badword", "nodate", "stray", "indented", "badaccount", "unterminated"}
 Kinds == Single \cup Blocks \cup Annot \cup Damaged \cup {"blank", "comment"}
 IsDirective(k) == k \in Single \cup Blocks
+IsTrx(k) == k \in {"trx1", "trx2"}
 
 \* the file parses iff nothing is damaged, no block is directly followed by a non-blank line,
-\* and every annotation is directly followed by a directive (or another annotation of the other kind)
+\* and every annotation is directly followed by a transaction (or another annotation of the other kind and then one)
 Parses(its) ==
   /\ \A n \in 1..Len(its) : its[n] \notin Damaged
   /\ \A n \in 1..(Len(its) - 1) : its[n] \in Blocks => its[n + 1] = "blank"
   /\ \A n \in 1..Len(its) : its[n] \in Annot =>
         /\ n < Len(its)
-        /\ (IsDirective(its[n + 1]) \/ (its[n + 1] \in Annot /\ its[n + 1] # its[n] /\ n + 1 < Len(its) /\ IsDirective(its[n + 2])))
+        /\ (IsTrx(its[n + 1]) \/ (its[n + 1] \in Annot /\ its[n + 1] # its[n] /\ n + 1 < Len(its) /\ IsTrx(its[n + 2])))
   /\ \A n \in 1..(Len(its) - 2) : ~(its[n] \in Annot /\ its[n + 1] \in Annot /\ its[n + 2] \in Annot)
 \* the directives of an accepted file, in order: [kind, rows, perf, accrue]
 RECURSIVE Dirs(_, _, _)
@@ -33,7 +36,7 @@ Dirs(its, perf, acc) ==
        IF k = "perf" THEN Dirs(Tail(its), TRUE, acc)
        ELSE IF k = "accrue" THEN Dirs(Tail(its), perf, TRUE)
        ELSE IF IsDirective(k)
-       THEN << [kind |-> k, perf |-> perf /\ k \in {"trx1", "trx2"}, accrue |-> acc /\ k \in {"trx1", "trx2"}] >> \o Dirs(Tail(its), FALSE, FALSE)
+       THEN << [kind |-> k, perf |-> perf /\ IsTrx(k), accrue |-> acc /\ IsTrx(k)] >> \o Dirs(Tail(its), FALSE, FALSE)
        ELSE Dirs(Tail(its), perf, acc)
 
 Init == items = << >>
